@@ -143,6 +143,8 @@ def run(ctx):
     ctx.coverage["conventional_cell_identity_judged"] = cell_judged
     for b in bad[:6]:
         ctx.finding("pair:%d:%s" % (b["group"], b["complaints"][0][:40]), "group %d: %s" % (b["group"], b["complaints"][0]), {"kind": "failing-input", "case": b})
+    import analyzer_hist
+    analyzer_hist.check(ctx, "C06", broken)
     if broken and not ctx.findings:
         ctx.finding("unproved", "proof/correspondence broken, no failing pair found", {"kind": "broken-obligation", "broken": broken}, found_input=False)
     ctx.coverage["broken"] = [{"what": k, "info": i} for k, i in broken]
